@@ -573,6 +573,23 @@ func runPushE2E(seed int64, scenario string) (*e2eResult, error) {
 	if o, err := e.Exec(ctx, &Op{Kind: "CreateSub", Sub: q}, pre); err != nil || o.Resp.Kind == "err" {
 		return nil, fmt.Errorf("create push subscription: %v %v", err, o.Resp)
 	}
+	// scenario dead-lettered: the messages reach the push subscription as dead-letter forwards
+	// of a pull subscription on another topic (published there, leased once, lease lapsed,
+	// dead-lettered by the next pull): the envelope still carries the ORIGINAL message -- id,
+	// data, attributes, publish time
+	pubTopic := topic
+	srcSub := "projects/p/subscriptions/src"
+	if scenario == "dead-lettered" {
+		pubTopic = "projects/p/topics/src"
+		if _, err := e.Exec(ctx, &Op{Kind: "CreateTopic", Name: pubTopic}, pre); err != nil {
+			return nil, err
+		}
+		short := 200 * time.Millisecond
+		sq := &SubReq{Name: srcSub, Topic: pubTopic, Retry: &[2]*time.Duration{&short, nil}, DL: dl(topic, 1)}
+		if o, err := e.Exec(ctx, &Op{Kind: "CreateSub", Sub: sq}, pre); err != nil || o.Resp.Kind == "err" {
+			return nil, fmt.Errorf("create source subscription: %v %v", err, o.Resp)
+		}
+	}
 	// the messages and what the endpoint answers, per attempt
 	fail := func() pushPlan {
 		if r.Float64() < 0.25 {
@@ -622,7 +639,7 @@ func runPushE2E(seed int64, scenario string) (*e2eResult, error) {
 		if i+k > len(msgs) {
 			k = len(msgs) - i
 		}
-		op := &Op{Kind: "Publish", Name: topic}
+		op := &Op{Kind: "Publish", Name: pubTopic}
 		for _, m := range msgs[i : i+k] {
 			op.Msgs = append(op.Msgs, PubMsg{Data: m.Payload, Attrs: m.Attrs, Key: m.Key})
 		}
@@ -638,6 +655,20 @@ func runPushE2E(seed int64, scenario string) (*e2eResult, error) {
 		}
 		ep.mu.Unlock()
 		i += k
+	}
+	if scenario == "dead-lettered" {
+		time.Sleep(300 * time.Millisecond) // publish times and dead-letter times must differ visibly
+		d, _ := e.Dump(ctx)
+		if o, err := e.Exec(ctx, &Op{Kind: "Pull", Name: srcSub, Max: 1000}, d); err != nil || len(o.Resp.Pulled) != len(msgs) {
+			return nil, fmt.Errorf("dead-lettered: first pull of the source subscription: %v %+v", err, o.Resp)
+		}
+		if err := e.Advance(2 * time.Second); err != nil {
+			return nil, err
+		}
+		d, _ = e.Dump(ctx)
+		if o, err := e.Exec(ctx, &Op{Kind: "Pull", Name: srcSub, Max: 1000}, d); err != nil || o.Resp.Kind == "err" {
+			return nil, fmt.Errorf("dead-lettered: second pull of the source subscription: %v %+v", err, o.Resp)
+		}
 	}
 	d0, err := e.Dump(ctx)
 	if err != nil {
@@ -725,7 +756,7 @@ func runPushE2E(seed int64, scenario string) (*e2eResult, error) {
 		row := final.msg(m.ID)
 		var del *DelRow
 		for i := range final.Dels {
-			if final.Dels[i].Msg == m.ID {
+			if final.Dels[i].Msg == m.ID && final.Dels[i].Sub == sub.ID {
 				del = &final.Dels[i]
 			}
 		}
@@ -819,7 +850,7 @@ func cmdPushE2E(args []string) error {
 		return fmt.Errorf("-out required")
 	}
 	os.MkdirAll(*out, 0o755)
-	scen := []string{"mixed", "mixed", "ordered", "all-success", "slow"}
+	scen := []string{"mixed", "mixed", "ordered", "all-success", "slow", "dead-lettered"}
 	var jobs []string
 	for i := 0; i < *reps; i++ {
 		jobs = append(jobs, scen...)
